@@ -463,6 +463,32 @@ func c12Tally(p *Prog, ls *Lockset, r *Report, fli interface{}) {
 			}
 		}
 		r.Check("R6", FnName(fn)+"|tally", ok, p.InstrPos(claim), "truth table over {denied, more than one callback, tally reached the count}. "+detail)
+		// the threshold of the tally test is the number of callbacks itself: unanimity, not a quorum
+		nThr := 0
+		for _, b := range fn.Blocks {
+			for _, ins := range b.Instrs {
+				bo, isB := ins.(*ssa.BinOp)
+				if !isB || (bo.Op != token.LSS && bo.Op != token.LEQ && bo.Op != token.GEQ && bo.Op != token.GTR) {
+					continue
+				}
+				if !(strings.Contains(Path(bo.X), "."+FN("FeatureLocal.writeApprovalReceived")) || isCounterLookup(bo.X)) {
+					continue
+				}
+				nThr++
+				thr := bo.Y
+				bad := ""
+				switch y := thr.(type) {
+				case *ssa.BinOp:
+					bad = "an arithmetic expression (" + Path(y.X) + " " + y.Op.String() + " " + Path(y.Y) + ")"
+				case *ssa.Const:
+					bad = "the constant " + y.Value.ExactString()
+				}
+				r.Check("R6", FnName(fn)+"|threshold", bad == "" && bo.Op == token.LSS, p.InstrPos(bo), fmt.Sprintf("the tally is tested with 'tally < number of callbacks' (operator %s, threshold %s %s): every callback has to approve", bo.Op, Path(thr), bad))
+			}
+		}
+		if nThr == 0 {
+			r.Undecided("R6", FnName(fn)+"|threshold", p.Pos(fn.Pos()), "comparison of the tally with the number of callbacks not found")
+		}
 		return
 	}
 	r.Undecided("R6", "anchor:ApproveOrDenyWrite", "", "implementation not found")
